@@ -115,15 +115,50 @@ Definition outcome_matches (m : outcome) (o : observed) : bool :=
 Definition unmodelled_failure (c : case) : bool :=
   negb (c_dom c) && match c_obs c with ObsOther | ObsCrash => true | _ => false end.
 
+(* ---- the composition with C17's model of the same helper (Model/Generators.v): the copy statements of every
+   generated DeepCopyIntoAs body are ALSO compared with what Model/DeepCopy.v's field_stmt / fields_copy select for the
+   struct partialstruct emits, through the adapter (field types, method signatures, replaced fields, a type graph built
+   from the retained fields).  Outside the common domain of the two models (pointer / array fields, containers of
+   non-scalars) nothing is compared here. ---- *)
+Require Gengo.Model.Generators.
+Module GN := Gengo.Model.Generators.
+
+Definition helper17_matches (L : bytes -> bytes) (target : bytes) (ti : tinput) (ot : otype) : bool :=
+  match GN.helper17_body L target all_fixed ti (ot_name ot) with
+  | None => true
+  | Some (Ok body) => list_eqb GN.stmt17_eqb body (map GN.stmt17 (ot_stmts ot))
+  | Some _ => false
+  end.
+
+Definition helper17_ok (c : case) : bool :=
+  match c_obs c with
+  | ObsFile imps ots =>
+      let en := filter ti_enabled (c_types c) in
+      if Nat.eqb (length en) (length ots)
+      then list_match (helper17_matches (fun p => assoc p imps) (c_target c)) en ots
+      else true
+  | _ => true
+  end.
+
+(* how many generated types of a case lie in the common domain (reported by the harness as a distribution figure) *)
+Definition helper17_compared (c : case) : nat :=
+  match c_obs c with
+  | ObsFile imps ots =>
+      length (filter (fun ti => match GN.helper17_body (fun p => assoc p imps) (c_target c) all_fixed ti [] with
+                                | Some _ => true | None => false end) (filter ti_enabled (c_types c)))
+  | _ => 0
+  end.
+
 Definition mismatch (c : case) : bool :=
   (negb (unmodelled_failure c) && negb (outcome_matches (model_of c) (c_obs c)))
   || negb (Bool.eqb (shadow_class (c_target c) (c_types c)) (c_shadow c))
-  || negb (Bool.eqb (iface_class (c_types c)) (c_iface c)).
+  || negb (Bool.eqb (iface_class (c_types c)) (c_iface c))
+  || negb (helper17_ok c).
 
 (* ---- the property's own sentence on (input, observed) ---- *)
 
 Definition denotes_name (imps : list (bytes * bytes)) (target : bytes) (o : oty) (tn : tyname) : bool :=
-  denotes imps target o (TNamed (fst tn) (snd tn) []).
+  denotes imps target o (TNamed (fst tn) (snd tn) UStruct []).
 
 (* the replace tag syntax: `Field:Type tag words…`; the last value for a field counts.  Type is either plain text or
    `import/path.Name` *)
